@@ -51,7 +51,7 @@ theorem C06_literal_expand_in_context (style : Style) (h : style.percent = true)
     scanP .text (quoteStrL style s ++ rest) = (scanP .text rest).map (lits (stdQuote s) ++ ·) := by
   simp only [quoteStrL, h, if_true, stdQuote, List.cons_append, List.append_assoc]
   rw [scanP_lit_cons _ (by decide), scanP_doubled '\'' (by decide), scanP_lit_cons _ (by decide)]
-  cases scanP .text rest <;> simp [lits]
+  cases hr : scanP .text rest <;> simp [lits, hr]
 
 /-- **Literal round trip** (SQLite, PostgreSQL, Oracle; all five styles; every string): the text Pony emits for the
     constant `s`, after the driver's `%` expansion, is one string-literal token that denotes exactly `s`. -/
@@ -196,11 +196,13 @@ theorem C06_like_const (k : LikeKind) (x s item : Str) :
     (likeAst (some x) k.before k.after).run none item s = k.py x s := by
   by_cases hm : (x.contains '%' || x.contains '_') = true
   · have := like_kind (some '!') (escapeLike x) x (spells_escapeLike x) k s
-    cases k <;> simpa [likeAst, LikeAst.run, hm, SqlExpr.eval, pyReplaceChain_eq, truthyS, LikeKind.before, LikeKind.after] using this
+    have hm2 : '%' ∈ x ∨ '_' ∈ x := by simpa using hm
+    cases k <;> simpa [likeAst, LikeAst.run, hm2, SqlExpr.eval, pyReplaceChain_eq, truthyS, LikeKind.before, LikeKind.after] using this
   · have hm' : (x.contains '%' || x.contains '_') = false := by simpa using hm
     have hp := plain_of_no_meta none x hm' (by simp)
     have := like_kind none x x (spells_plain none x hp) k s
-    cases k <;> simpa [likeAst, LikeAst.run, hm', SqlExpr.eval, truthyS, LikeKind.before, LikeKind.after] using this
+    have hm2 : ¬ ('%' ∈ x ∨ '_' ∈ x) := by simpa using hm'
+    cases k <;> simpa [likeAst, LikeAst.run, hm2, SqlExpr.eval, truthyS, LikeKind.before, LikeKind.after] using this
 
 /-- **Expression path** (`x` is a parameter, column or any non-constant string expression): the nested
     `replace(replace(replace(x,'!','!!'),'%','!%'),'_','!_')` evaluated by the database, wrapped by `CONCAT`, with
@@ -245,15 +247,22 @@ theorem C06_like_const_backslash_partial (b : Char) (k : LikeKind) (x s item : S
     (likeAst (some x) k.before k.after).run (some b) item s = k.py x s := by
   by_cases hm : (x.contains '%' || x.contains '_') = true
   · have := like_kind (some '!') (escapeLike x) x (spells_escapeLike x) k s
-    cases k <;> simpa [likeAst, LikeAst.run, hm, SqlExpr.eval, pyReplaceChain_eq, truthyS, LikeKind.before, LikeKind.after] using this
+    have hm2 : '%' ∈ x ∨ '_' ∈ x := by simpa using hm
+    cases k <;> simpa [likeAst, LikeAst.run, hm2, SqlExpr.eval, pyReplaceChain_eq, truthyS, LikeKind.before, LikeKind.after] using this
   · have hm' : (x.contains '%' || x.contains '_') = false := by simpa using hm
     have hb : b ∉ x := by rcases h with h | h; exact absurd h hm; exact h
     have hp := plain_of_no_meta (some b) x hm' (by intro c hc; cases hc; exact hb)
     have := like_kind (some b) x x (spells_plain (some b) x hp) k s
-    cases k <;> simpa [likeAst, LikeAst.run, hm', SqlExpr.eval, truthyS, LikeKind.before, LikeKind.after] using this
+    have hm2 : ¬ ('%' ∈ x ∨ '_' ∈ x) := by simpa using hm'
+    cases k <;> simpa [likeAst, LikeAst.run, hm2, SqlExpr.eval, truthyS, LikeKind.before, LikeKind.after] using this
 
 example : (['5', '0', '%', '_', 'o', 'f', 'f', '!'].contains '%' || ['5', '0', '%', '_', 'o', 'f', 'f', '!'].contains '_') = true ∨ '\\' ∉ ['5', '0', '%', '_', 'o', 'f', 'f', '!'] := by decide
-example : (likeAst (some ['5', '0', '%', '_', 'o', 'f', 'f', '!']) (some ['%']) (some ['%'])).run none [] ['n', 'o', 'w', ' ', '5', '0', '%', '_', 'o', 'f', 'f', '!', ' ', 't', 'o', 'd', 'a', 'y'] = true := by decide
+example : (likeAst (some ['5', '0', '%', '_', 'o', 'f', 'f', '!']) (some ['%']) (some ['%'])).run none []
+    ['n', 'o', 'w', ' ', '5', '0', '%', '_', 'o', 'f', 'f', '!', ' ', 't', 'o', 'd', 'a', 'y'] = true := by
+  have := C06_like_const .contains ['5', '0', '%', '_', 'o', 'f', 'f', '!']
+    ['n', 'o', 'w', ' ', '5', '0', '%', '_', 'o', 'f', 'f', '!', ' ', 't', 'o', 'd', 'a', 'y'] []
+  simp only [LikeKind.before, LikeKind.after] at this
+  rw [this]; decide
 
 /-! ### parameters -/
 
@@ -275,6 +284,7 @@ theorem C06_params (style : Style) (occ : List Nat) (vals : Nat → α) (pos : N
       have : k = occ[pos] := idOf_inj occ k occ[pos] hk hmem hpa
       simp [this]
     · exact ⟨(idOf occ occ[pos], vals occ[pos]), by simp only [List.mem_reverse, List.mem_map]; exact ⟨occ[pos], hmem, rfl⟩, rfl⟩
+  rw [hid] at hdict
   cases style <;>
     simp [placeholders, placeholder, adapter, resolve, h, List.getElem?_eq_getElem, hid, hlt, hget, hdict]
 
@@ -297,8 +307,7 @@ theorem hexDigit_ne_quote (n : Nat) : hexDigit n ≠ '\'' := by
   · revert n; decide
   · have : 16 ≤ n := by omega
     obtain ⟨m, rfl⟩ : ∃ m, n = 16 + m := ⟨n - 16, by omega⟩
-    simp [hexDigit, String.toList, List.getD]
-    decide
+    simp [hexDigit, List.getD]
 
 theorem unhexlify_hexlify (b : List Nat) (h : ∀ x ∈ b, x < 256) : unhexlify (hexlify b) = some b := by
   induction b with
